@@ -337,7 +337,7 @@ def pipeline_project(rng, cid, n, cyclic=False, tier="quick", all_edges=None, si
         elif has_src and rng.random() < 0.85:
             sp = b"src/s%d.txt" % i
             dirs_ = [j for j in range(n) if kinds[j] == "dir"]
-            if dirs_ and rng.random() < 0.2:
+            if dirs_ and rng.random() < 0.4:
                 # a plain source in a directory whose NAME merely starts with the name of some stage's directory output
                 sp = outpath[rng.choice(dirs_)] + b"_cfg/p%d.txt" % i
             init.append(("file", sp, "g:%d:%d" % (rng.randrange(1000), rng.choice([0, 3, 40, 70000] if tier == "thorough" else [0, 3, 40]))))
